@@ -22,6 +22,40 @@ def M(id_, file, old, new, props):
 
 
 MUTANTS = [
+    # ---------------- round-3 additions
+    M('centre-without-half-turn', PS, "np.amax(dx) / 2.0 + 0.5) % 1", "np.amax(dx) / 2.0) % 1",
+      'C16'),
+    M('centre-third-of-gap', PS, "np.amax(dx) / 2.0 + 0.5) % 1", "np.amax(dx) / 3.0 + 0.5) % 1",
+      'C16'),
+    M('gaps-of-unsorted', PS, "x = np.sort(points[:, dim])", "x = points[:, dim]", 'C16'),
+    M('wrap-gap-without-period', PS, "x[0] - (x[-1] - 1))", "x[0] - x[-1])", 'C16'),
+    M('wrap-gap-from-one', PS, "x[0] - (x[-1] - 1))", "1 - x[-1])", 'C16'),
+    M('wrap-gap-modulo', PS, "dx = np.append(np.diff(x), x[0] - (x[-1] - 1))",
+      "dx = np.diff(x, append=x[0]) % 1", 'C16'),
+    M('argmax-of-other-vector', PS, "x[np.argmax(dx)] + np.amax(dx)",
+      "x[np.argmax(np.diff(x))] + np.amax(dx)", 'C16'),
+    M('thinning-mask-stale-count', U,
+      "            points = points[self.rng.random(size=len(points)) > p]\n"
+      "            self.points = np.vstack([self.points, points])",
+      "            keep = self.rng.random(size=len(points)) > p\n"
+      "            self.points = np.vstack([self.points, points[keep]])", 'C08'),
+    M('rejections-from-overlap-only', U,
+      "            points = points[self.rng.random(size=len(points)) > p]\n"
+      "            self.points = np.vstack([self.points, points])\n\n"
+      "            self.n_sample += n_sample\n"
+      "            self.n_reject += n_sample - len(points)",
+      "            overlap = self.rng.random(size=len(points)) <= p\n"
+      "            self.points = np.vstack([self.points, points[~overlap]])\n\n"
+      "            self.n_sample += n_sample\n"
+      "            self.n_reject += np.sum(overlap)", 'C08'),
+    M('cube-dropped-for-high-dim', U, "        if not unit:\n            bound.cube = None",
+      "        if not unit or bound.n_dim > 20:\n            bound.cube = None", 'C07 C01 C10'),
+    M('binv-recomputed-differently-on-read', B,
+      "        for key in ['n_dim', 'c', 'A', 'B', 'B_inv']:\n"
+      "            setattr(bound, key, group.attrs[key])\n",
+      "        for key in ['n_dim', 'c', 'A', 'B']:\n"
+      "            setattr(bound, key, group.attrs[key])\n"
+      "        bound.B_inv = np.linalg.pinv(bound.B)\n", 'C09'),
     # ---------------- alignment of points / log_l / blobs
     M('rows-filter-polarity', S, "self.log_l[shell] = self.log_l[shell][~in_bound]",
       "self.log_l[shell] = self.log_l[shell][in_bound]", 'C03 C01'),
@@ -772,11 +806,69 @@ def _extract_checkpoint_helper(src):
     return src2[:k] + helper + src2[k:]
 
 
+def _extract_ctor_helper(src):
+    """Union: the set-up shared by compute() and read() moves into a private method that both
+    constructors call on the object they are building."""
+    blk = ("        bound.points = np.zeros((0, points.shape[1]))\n"
+           "        bound.n_sample = 0\n"
+           "        bound.n_reject = 0\n\n"
+           "        if rng is None:\n"
+           "            bound.rng = np.random.default_rng()\n"
+           "        else:\n"
+           "            bound.rng = rng\n")
+    rblk = ("        bound = cls()\n\n"
+            "        if rng is None:\n"
+            "            bound.rng = np.random.default_rng()\n"
+            "        else:\n"
+            "            bound.rng = rng\n\n"
+            "        for key in ['n_dim', 'log_v_all',")
+    if blk not in src or rblk not in src or "    def reset(self, rng=None):" not in src:
+        return src
+    src = src.replace(blk, "        bound._start(points.shape[1], rng)\n", 1)
+    src = src.replace(rblk, "        bound = cls()\n"
+                      "        bound._start(group.attrs['n_dim'], rng)\n\n"
+                      "        for key in ['n_dim', 'log_v_all',", 1)
+    helper = ("    def _start(self, n_dim, rng):\n"
+              "        self.points = np.zeros((0, n_dim))\n"
+              "        self.n_sample = 0\n"
+              "        self.n_reject = 0\n"
+              "        if rng is None:\n"
+              "            self.rng = np.random.default_rng()\n"
+              "        else:\n"
+              "            self.rng = rng\n\n")
+    return src.replace("    def reset(self, rng=None):", helper + "    def reset(self, rng=None):", 1)
+
+
 BENIGN += [
     dict(id='extract-removal-helper', file=S, old="if np.any(self.shell_n == 0):", new=None,
          fn=_extract_removal_helper, props=ALL.split()),
     dict(id='extract-checkpoint-helper', file=S, old="self.write_shell_update(self.filepath, shell)",
          new=None, fn=_extract_checkpoint_helper, props=ALL.split()),
+    dict(id='extract-ctor-helper', file=U, old="        bound.points = np.zeros((0, points.shape[1]))",
+         new=None, fn=_extract_ctor_helper, props=ALL.split()),
+    dict(id='thinning-by-named-mask', file=U,
+         old="            points = points[self.rng.random(size=len(points)) > p]\n"
+             "            self.points = np.vstack([self.points, points])\n\n"
+             "            self.n_sample += n_sample\n"
+             "            self.n_reject += n_sample - len(points)",
+         new="            keep = self.rng.random(size=len(points)) > p\n"
+             "            self.points = np.vstack([self.points, points[keep]])\n\n"
+             "            self.n_sample += n_sample\n"
+             "            self.n_reject += n_sample - np.sum(keep)", props=ALL.split()),
+    dict(id='binv-recomputed-as-constructed', file=B,
+         old="        for key in ['n_dim', 'c', 'A', 'B', 'B_inv']:\n"
+             "            setattr(bound, key, group.attrs[key])\n",
+         new="        for key in ['n_dim', 'c', 'A', 'B']:\n"
+             "            setattr(bound, key, group.attrs[key])\n"
+             "        bound.B_inv = np.linalg.inv(bound.B)\n", props=ALL.split()),
+    dict(id='gaps-diff-of-extended', file=PS, old="dx = np.append(np.diff(x), x[0] - (x[-1] - 1))",
+         new="dx = np.diff(np.append(x, x[0] + 1))", props=ALL.split()),
+    dict(id='gaps-diff-append-kw', file=PS, old="dx = np.append(np.diff(x), x[0] - (x[-1] - 1))",
+         new="dx = np.diff(x, append=x[0] + 1)", props=ALL.split()),
+    dict(id='centre-reordered', file=PS, old="x[np.argmax(dx)] + np.amax(dx) / 2.0 + 0.5) % 1",
+         new="0.5 + np.amax(dx) * 0.5 + x[np.argmax(dx)]) % 1", props=ALL.split()),
+    dict(id='centre-minus-half', file=PS, old="x[np.argmax(dx)] + np.amax(dx) / 2.0 + 0.5) % 1",
+         new="x[np.argmax(dx)] + dx[np.argmax(dx)] / 2 - 0.5) % 1", props=ALL.split()),
     dict(id='with-statement', file=S, old="fstream = h5py.File(filepath_tmp, 'w')", new=None,
          fn=_with_statement, props=ALL.split()),
     dict(id='guard-clause-trim', file=U, old="            return False\n\n    def contains",
